@@ -9,6 +9,7 @@
 #include "scen_c17.h"
 #include "scen_persist.h"
 #include "scen_c06.h"
+#include "scen_c01.h"
 
 int main(int argc, char **argv) {
     if (argc < 5) { fprintf(stderr, "usage: tpmdrv Cxx seed tier trace [extra]\n"); return 2; }
@@ -31,6 +32,7 @@ int main(int argc, char **argv) {
     else if (!strcmp(prop, "C05")) scen_c05(thorough ? 120 : 12, thorough ? 60 : 25, thorough ? 30 : 5);
     else if (!strcmp(prop, "C07")) scen_c07(thorough ? 200 : 20, thorough ? 40 : 20);
     else if (!strcmp(prop, "C06")) scen_c06(thorough ? 12 : 3, 30, thorough ? 4000 : 350);
+    else if (!strcmp(prop, "C01")) scen_c01(thorough ? 40 : 5, 25, thorough ? 1500 : 400);
     else { fprintf(stderr, "no scenario for %s\n", prop); return 2; }
     TPMLIB_Terminate();
     tr("end cmds=%ld ok=%ld faults=%ld", g_n_cmds, g_n_ok, g_fault_fired);
